@@ -833,6 +833,10 @@ DIRECTED = [
 ]
 
 
+IMAGE_OF = {'scale': 'scale', 'scaled': 'scale', 'shift': 'shift', 'shifted': 'shift', 'reverse': 'reverse', 'reversed': 'reverse',
+            'rotate': 'rotate', 'rotated': 'rotate'}
+
+
 def dis(ctx, stream, detail, key=None):
     ctx.count('disagree:' + stream)
     ctx.disagree(stream, detail, key)
@@ -898,11 +902,17 @@ def run(ctx):
                             conv = len(lines)
                             lines.append(cq)
                     ml = impl_line(st)
+                img = None
+                if op[0] in IMAGE_OF and st['status'] == 'ok' and isinstance(ml, str):
+                    # the right-hand side of the `points_*` theorem for this op, from the value BEFORE it
+                    t = ml.split(' ')
+                    img = len(lines)
+                    lines.append(' '.join(['C11', 'image', t[2], IMAGE_OF[op[0]]] + t[3:]))
                 if isinstance(ml, list):
                     lines += ml
                 else:
                     lines.append(ml)
-                m = {'op': len(lines) - 1, 'impl': op[0] in FROM_IMPL, 'conv': conv}
+                m = {'op': len(lines) - 1, 'impl': op[0] in FROM_IMPL, 'conv': conv, 'img': img}
                 nlive = len(st['after'])
                 m['show'] = len(lines)
                 lines += ['C11 show %d' % k for k in range(nlive)]
@@ -950,6 +960,17 @@ def run(ctx):
                     ctx.traces_validated += 1
                     if d is not None:
                         dis(ctx, 'C11 as_ model', {'case': case, 'op': st['op'], 'diff': d, 'model': out[base_i + m['conv']][:300]})
+                        break
+                if m.get('img') is not None:
+                    op = st['op']
+                    real = st['after'][-1 if op[0] in NONMUT else op[1]]['points']
+                    ia = out[base_i + m['img']]
+                    mp = parse_rat_lists(ia.split(' ', 1)[1]) if ia.startswith('ok ') else None
+                    ctx.traces_validated += 1
+                    ctx.count('image:' + IMAGE_OF[op[0]])
+                    if mp is None or len(mp) != len(real) or not close_arr(
+                            np.array([[float(x) for x in p] for p in mp], dtype=float).reshape(len(mp), real.shape[1]), real):
+                        dis(ctx, 'C11 image', {'case': case, 'op': op, 'model': ia[:300], 'impl': real.tolist()[:6]})
                         break
                 if mstatus != st['status']:
                     dis(ctx, 'C11 op status', {'case': case, 'op': st['op'], 'impl': st['status'], 'model': ans})
